@@ -41,13 +41,27 @@ func Generate(converters []*config.Converter, c Config) (map[string][]byte, erro
 			return nil, err
 		}
 
-		if converter.OutputFormat == config.FormatStruct {
-			// the struct types of one output package (the files of one
-			// directory) need distinct names
-			key := filepath.Dir(getOutputDir(converter)) + ":" + converter.Name
+		// the package level declarations of one output package (the files
+		// of one directory) need distinct names: the struct types of the
+		// struct format, the functions of the function format.
+		var names []string
+		switch converter.OutputFormat {
+		case config.FormatStruct:
+			names = append(names, converter.Name)
+		case config.FormatFunction:
+			for _, m := range converter.Methods {
+				names = append(names, m.Name)
+			}
+		}
+		for _, name := range names {
+			key := filepath.Dir(getOutputDir(converter)) + ":" + name
 			if other, ok := structs[key]; ok {
-				return nil, fmt.Errorf("Error creating converters\n    %s\n    %s\nand\n    %s\n    %s\n\nCannot use the same struct name %q twice in the output package\n    %s\n\nSee https://goverter.jmattheis.de/reference/name",
-					converter.Location, converter.IDString(), other.Location, other.IDString(), converter.Name, converter.OutputPackagePath)
+				kind := "struct"
+				if converter.OutputFormat == config.FormatFunction {
+					kind = "function"
+				}
+				return nil, fmt.Errorf("Error creating converters\n    %s\n    %s\nand\n    %s\n    %s\n\nCannot use the same %s name %q twice in the output package\n    %s\n\nSee https://goverter.jmattheis.de/reference/name",
+					converter.Location, converter.IDString(), other.Location, other.IDString(), kind, name, converter.OutputPackagePath)
 			}
 			structs[key] = converter
 		}
